@@ -18,6 +18,7 @@ import (
 	"math/rand"
 	"os"
 	"sort"
+	"strings"
 	"time"
 
 	g "github.com/zenon-network/go-zenon/chain/genesis/mock"
@@ -26,6 +27,7 @@ import (
 	"github.com/zenon-network/go-zenon/common/types"
 	"github.com/zenon-network/go-zenon/vm/constants"
 	"github.com/zenon-network/go-zenon/vm/embedded/definition"
+	"github.com/zenon-network/go-zenon/wallet"
 
 	"verif/harness/fw"
 	"verif/harness/simnet"
@@ -58,7 +60,128 @@ func c02Cases(tier string, seed int64) []string {
 	for i := 0; i < n; i++ {
 		l = append(l, fmt.Sprintf("hist:%d", i))
 	}
+	ns := 2
+	if tier == "thorough" {
+		ns = 40
+	}
+	for i := 0; i < ns; i++ {
+		l = append(l, fmt.Sprintf("shift:%d", i))
+	}
 	return l
+}
+
+// c02RunShift: verdict and effect of a user block are a function of its account chain and of the ledger as of the
+// momentum it acknowledges — NOT of how far the evaluating node's frontier has moved past that momentum (a producer
+// evaluates a block when it hears it, a syncing node when the confirming momentum arrives, possibly much later).
+// On a long chain (> 1 h of momentums) a quiet account's send and receive are generated for EVERY acknowledged momentum
+// F−d (never inserted); after the frontier moved on by k momentums every generated block is evaluated again.
+func c02RunShift(c *fw.C, caseID string) {
+	r := c.Rand(caseID)
+	base := c.ScratchDir("c02s")
+	defer os.RemoveAll(base)
+	P := simnet.Open("P", base+"/P", simnet.MockGenesis(), g.PillarKeys)
+	defer P.Stop()
+	w := simnet.NewWorkload(rand.New(rand.NewSource(r.Int63())), P)
+	Q, err := wallet.DeriveWithIndex(78, []byte("c02 quiet account seed 000000001"))
+	if err != nil {
+		c.Inconclusive(err.Error())
+		return
+	}
+	P.MustProduce(2)
+	_, e1 := P.Send(g.User1, types.PlasmaContract, types.QsrTokenStandard, big.NewInt(100*g.Zexp), definition.ABIPlasma.PackMethodPanic(definition.FuseMethodName, Q.Address))
+	s1, e2 := P.Send(g.User1, Q.Address, types.ZnnTokenStandard, big.NewInt(1000*g.Zexp), nil)
+	s2, e3 := P.Send(g.User1, Q.Address, types.ZnnTokenStandard, big.NewInt(2000*g.Zexp), nil)
+	if e1 != nil || e2 != nil || e3 != nil {
+		c.Inconclusive(fmt.Sprint("setup refused: ", e1, e2, e3))
+		return
+	}
+	P.MustProduce(3)
+	if _, err := P.Receive(Q, s1.Hash); err != nil {
+		c.Inconclusive("setup: quiet account cannot receive: " + err.Error())
+		return
+	}
+	P.MustProduce(1)
+	first := P.Height() // Q's only block acknowledges a momentum below this height
+	target := 375 + r.Intn(110)
+	for int(P.Height()) < target {
+		w.Step(3)
+		skip := 0
+		if r.Intn(9) == 0 {
+			skip = 1 + r.Intn(2)
+		}
+		if _, err := P.Produce(skip); err != nil {
+			c.Violation("producer-cannot-produce", map[string]interface{}{"height": P.Height() + 1, "err": err.Error()})
+			return
+		}
+	}
+	type probe struct {
+		d     uint64
+		kind  string
+		block *nom.AccountBlock
+		patch []byte
+	}
+	for _, k := range []int{1, 2, 31} {
+		F := P.Height()
+		st := P.Chain.GetFrontierMomentumStore()
+		var probes []probe
+		accepted0 := 0
+		for d := uint64(0); F-d >= first; d++ {
+			m, _ := st.GetMomentumByHeight(F - d)
+			if m == nil {
+				break
+			}
+			for _, kind := range []string{"send", "receive"} {
+				tpl := &nom.AccountBlock{BlockType: nom.BlockTypeUserSend, Address: Q.Address, ToAddress: g.User2.Address, TokenStandard: types.ZnnTokenStandard, Amount: big.NewInt(1), MomentumAcknowledged: m.Identifier()}
+				if kind == "receive" {
+					tpl = &nom.AccountBlock{BlockType: nom.BlockTypeUserReceive, Address: Q.Address, FromBlockHash: s2.Hash, MomentumAcknowledged: m.Identifier()}
+				}
+				tx, err := P.Generate(tpl, Q)
+				c.Eval(1)
+				if err != nil {
+					c.SetAdd("shift_refusals_at_generation", c05ErrClass(err))
+					continue
+				}
+				accepted0++
+				var dump []byte
+				if tx.Changes != nil {
+					dump = tx.Changes.Dump()
+				}
+				probes = append(probes, probe{d, kind, tx.Block, dump})
+			}
+		}
+		if accepted0 < 100 {
+			c.Inconclusive(fmt.Sprintf("only %d probe blocks could be generated", accepted0))
+			return
+		}
+		// the frontier moves on (the quiet account stays quiet)
+		for i := 0; i < k; i++ {
+			w.Step(2)
+			if _, err := P.Produce(0); err != nil {
+				c.Violation("producer-cannot-produce", map[string]interface{}{"height": P.Height() + 1, "err": err.Error()})
+				return
+			}
+		}
+		for _, p := range probes {
+			tx, err := P.Sup.ApplyBlock(simnet.CloneBlock(p.block))
+			c.Eval(1)
+			if err != nil {
+				c.Violation("block-verdict-depends-on-frontier-distance "+p.kind, map[string]interface{}{"acknowledged_depth_when_generated": p.d, "frontier_moved_by": k, "distance_at_second_evaluation": p.d + uint64(k),
+					"err": err.Error(), "note": "accepted when the frontier was d past its acknowledged momentum, refused at d+k with the same account chain"})
+				return
+			}
+			var dump []byte
+			if tx.Changes != nil {
+				dump = tx.Changes.Dump()
+			}
+			if string(dump) != string(p.patch) {
+				c.Violation("block-effect-depends-on-frontier-distance "+p.kind, map[string]interface{}{"acknowledged_depth_when_generated": p.d, "frontier_moved_by": k})
+				return
+			}
+		}
+		c.Count("shift_probe_blocks_evaluated_twice", len(probes))
+		c.SetAdd("shift_max_distance_class", fmt.Sprintf(">=%d", (int(F-first)+k)/100*100))
+		c.Distinct(fmt.Sprintf("shift k=%d chain>=%d", k, int(F)/100*100))
+	}
 }
 
 type c02Gossip struct {
@@ -67,6 +190,10 @@ type c02Gossip struct {
 }
 
 func c02Run(c *fw.C, caseID string) {
+	if strings.HasPrefix(caseID, "shift:") {
+		c02RunShift(c, caseID)
+		return
+	}
 	r := c.Rand(caseID)
 	base := c.ScratchDir("c02")
 	defer os.RemoveAll(base)
